@@ -29,9 +29,9 @@ MUTANTS = [
      "            g = copy.deepcopy(self)\n            g.metadata.clear()\n            g |= other",
      "            g = Graph(self.triples, top=self._top, epidata=self.epidata)\n            g.triples = self.triples\n            g |= other",
      ['C17', 'C15'], False, []),
-    ('c17-model-memo-by-id', 'penman/model.py',
-     "    def _has_role(self, role: Role) -> bool:\n        return self._role_re.match(role) is not None",
-     "    def _has_role(self, role: Role) -> bool:\n        key = id(role)\n        if key not in _MEMO:\n            _MEMO[key] = self._role_re.match(role) is not None\n        return _MEMO[key]",
+    ('c17-model-memo-shared-across-models', 'penman/model.py',
+     "    def is_role_inverted(self, role: Role) -> bool:\n        \"\"\"Return ``True`` if *role* is inverted.\"\"\"\n        return not self._has_role(role) and role.endswith('-of')",
+     "    def is_role_inverted(self, role: Role) -> bool:\n        \"\"\"Return ``True`` if *role* is inverted.\"\"\"\n        if role not in _MEMO:\n            _MEMO[role] = not self._has_role(role) and role.endswith('-of')\n        return _MEMO[role]",
      ['C17'], False, [("_ReificationSpec = Tuple", "_MEMO: dict = {}\n_ReificationSpec = Tuple")]),
     ('c17-ior-set-order', 'penman/graph.py',
      "            self.triples.extend(t for t in other.triples if t in new)",
